@@ -46,6 +46,8 @@ def run_encrypt(firmware: bytes, key_id: int, hash_alg: str, d: str, key_name: s
     os.makedirs(outd, exist_ok=True)
     for f in os.listdir(outd):
         os.unlink(os.path.join(outd, f))
+    for f in ("encrypted_content.bin", "suit_encryption_info.bin", "plain_text_digest.bin", "plain_text_size.txt"):
+        common.make_stale(os.path.join(outd, f))           # artifacts of an earlier, larger build are in the output directory
     with open(fw, "wb") as fh:
         fh.write(firmware)
     rec = os.path.join(d, "kms_record.jsonl")
@@ -149,6 +151,8 @@ def generate_info_cases(drv, res, rng, tier):
             open(kf, "wb").write(cek)
             for f in os.listdir(outd):
                 os.unlink(os.path.join(outd, f))
+            for f in ("encrypted_content.bin", "suit_encryption_info.bin"):
+                common.make_stale(os.path.join(outd, f))
             try:
                 cmd_encrypt.main(encrypt_subcommand="generate-info", encrypted_firmware=bf, encrypted_key=kf, key_id=key_id, kw_alg=kw,
                                  encrypt_script=str(common.REPO / "ncs" / "encrypt_script.py"), output_dir=outd)
